@@ -4,9 +4,9 @@ CONSTANTS
   MaxN = 3
   Levels = {"any", "one", "quorum", "all"}
   OOO = {TRUE, FALSE}
+  Coords = {0, 1, 2, 3}
   Dev = {}
   GenN = {1, 2}
-  GenCoord = {0, 1, 2}
   GenHang = TRUE
 INVARIANT Emit
 CHECK_DEADLOCK FALSE
